@@ -1473,7 +1473,13 @@ class SymArr(np.ndarray):
         if isinstance(key, SymArr):
             key = normalize(key)
             if isinstance(key, SymArr):
-                raise Unsupported('indexing with a symbolic array')
+                flat = list(np.asarray(key).flat)
+                if builtins.all(isinstance(k, (SymBool, bool, np.bool_)) for k in flat):
+                    # boolean mask with symbolic entries: the selection has a data-dependent size, so every entry is decided
+                    # (bool() forks under an Explorer, one path per feasible mask)
+                    key = np.array([bool(k) for k in flat], dtype=bool).reshape(np.shape(key))
+                else:
+                    raise Unsupported('indexing with a symbolic array')
         r = np.ndarray.__getitem__(self, key)
         return r
 
